@@ -517,7 +517,7 @@ PROPS = {
         level="proof",
         claim="Totality obligations: Verus proves termination and absence of panics/overflow/out-of-range access (its default obligations) for the host-trait loops read_exact/write_all under ANY host read/write behaviour, the TAP block reader and pulse state machine for all images, frame_registers, the VTX transposition, BlocksCount, ZXColor::from_bits / set_regs preconditions; the SZX block handlers and scr::load never index out of range for any block content of the checked minimal size (scan: szx::load checks those sizes before dispatch); Kani proves that sna::load returns Ok/Err for every header, reported size class, model combination and an injected asset failure at any call, and (BOUNDED) the same for one-block SZX files and VTX header rejection / truncation / end-of-file cases; every K-z80 group additionally proves Z80::emulate free of panics for every CPU state and bus answer (thorough tier).",
         note="BOUNDED parts are reported under bounded_stand_ins. Third-party decoders (miniz_oxide, flate2/GzipAsset, delharc) are out of reach and assumed. Memory proportionality is the explicit size checks now in the loaders (SZX block size <= rest of file, VTX frame size cap), checked by the harness assertions. Twelve loader defects repaired (see known_findings.json fixed entries).",
-        verus=["hostio", "tape", "vtx", "screen", "scr", "szx"],
+        verus=["hostio", "tape", "vtx", "screen", "scr", "szx", "romload"],
         scans=[scan_szx_min_sizes],
         kani=[K_LOADERS, K_LOADERS_SZX, K_VTXLOAD, k_z80("K-z80::total", ["plain_all", "ed_all", "cbx_all"], tier="thorough")],
         explanation="panic-freedom and termination as verifier default obligations on the load paths",
@@ -649,8 +649,8 @@ PROPS = {
     "C06": dict(
         level="proof",
         claim="Deductive proof (Verus, all addresses/values/latch histories by invariant induction) that ZXMemory read/write implement the (page,offset) view, that a write is read back through exactly the windows mapping the same bank, that ROM windows ignore writes, and that write_7ffd maintains the paging invariant map = f(machine, latch) with the lock bit; syntactic frame obligations pin the only callers of remap and the only writers of the latch.",
-        note="Assumes: extraction rules; ROM *contents* equal the supplied image only through rom_page_data_mut's range contract (host-supplied ROM loading loop is covered under C15); SNA/SZX loaders reach paging only through write_7ffd (scan).",
-        verus=["ctl"],
+        note="Assumes: extraction rules; ROM *contents*: the real load_rom_binary_16k_pages (Verus, unit romload) puts the first 16 KiB of the i-th supplied image into ROM page i for every page of the machine and fails (no panic) when images are missing; the embedded default images by Kani rom_case; SNA/SZX loaders reach paging only through write_7ffd (scan).",
+        verus=["ctl", "romload"],
         kani=[K_ROM],
         scans=[scan_remap_callers, scan_paging_writers],
         explanation="memory map / paging invariant / alias lemma as postconditions of the real ZXMemory and ZXController functions",
